@@ -49,16 +49,28 @@ def Env.zero (e : Env) : List Ty → Env
 /-- all types later static injectors would have written -/
 def laterOuts : List SNode → List Ty
   | [] => []
-  | n :: rest => n.outs ++ laterOuts rest
+  | n :: rest => (if n.lit.isSome then [] else n.outs) ++ laterOuts rest
+
+/-- the literal values listed further down still take effect when the injectors are skipped -/
+def applyLitsE : List SNode → Env → Env
+  | [], e => e
+  | n :: rest, e =>
+    match n.lit with
+    | some x => applyLitsE rest (e.set n.outs [x])
+    | none => applyLitsE rest e
 
 def specStatic (b : Beh) : List SNode → Env → St → Env × St
   | [], down, st => (down, st)
   | n :: rest, down, st =>
-    let r := callStatic b n (n.ins.map down.rd) st
-    if n.fallible && isErr (r.1.getD n.errIdx (zeroV 0)) then
-      -- the skipped injectors' types are zero; this injector's own results (its error) are visible
-      ((down.zero (laterOuts rest)).set n.outs r.1, r.2)
-    else specStatic b rest (down.set n.outs r.1) r.2
+    match n.lit with
+    | some x => specStatic b rest (down.set n.outs [x]) st      -- a value: in effect from here on
+    | none =>
+      let r := callStatic b n (n.ins.map down.rd) st
+      if n.fallible && isErr (r.1.getD n.errIdx (zeroV 0)) then
+        -- the skipped injectors' types are zero; this injector's own results (its error) are visible;
+        -- values listed after it are in place
+        (applyLitsE rest ((down.zero (laterOuts rest)).set n.outs r.1), r.2)
+      else specStatic b rest (down.set n.outs r.1) r.2
 
 structure SBound where
   base : Env
